@@ -31,6 +31,13 @@ PROPS = {
                 rule="cases = Action expressions (algebra grammar, biased to equal displays with different values under Batch, several "
                      "messages, MultiParts over Batch) x typed word; each rebuilt, invoked and rendered for all 13 formats 25 times in one "
                      "process, raw bytes compared; non-trivial = the rendering is non-empty for some format; distinct by case content"),
+    "C13": dict(streams=[dict(harness="import", model="import", oracle="import_oracle", quick=6000, thorough=300000,
+                             nontrivial=lambda f, impl: len(f) > 6 or (impl and impl[0] != b"msg"))],
+                tie="Model/JsonParse.v + Model/Export.v (jparse, of_json, import) and Model/Shells.v export_format <-> real json.Marshal / ActionImport",
+                rule="cases = 40% round trips (generated exports: quotes, backslashes, control characters, U+2028, non-BMP text, <>&, 0..600 values) "
+                     "printed by the real Export.MarshalJSON and re-imported; 60% byte strings offered to ActionImport: real documents mutated 1-2 "
+                     "times (truncation at any byte, byte flips, key replacement incl. case variants, type swaps, extra / duplicate keys, trailing "
+                     "garbage, fragments, null elements, wrapping); non-trivial = a round trip with content or a mutated document that is still accepted"),
 }
 
 TRUSTED = ["Go harness stream(s) and extracted oracle of this property (see rule)"]
